@@ -189,9 +189,16 @@ def r3_5(ctx):
     ctx.end()
 
 
+def r3_6(ctx):
+    """Facility exclusivity inside one step rests on can_add_resources (busy-facility / solo / fixed-ID conjuncts): shared with C04 R4.2."""
+    from .C04 import r4_2
+    r4_2(ctx)
+
+
 def run(ctx):
     r3_1(ctx)
     r3_2(ctx)
     r3_3(ctx)
     r3_4(ctx)
     r3_5(ctx)
+    r3_6(ctx)
